@@ -180,6 +180,24 @@ theorem bestCommon_lookup (sup : List (Nat × Nat)) : ∀ (prop : List (Nat × N
         · simp only [c, if_false, Option.some.injEq, Prod.mk.injEq] at h
           obtain ⟨rfl, _, rfl⟩ := h; exact hl
 
+/-- the discovery-pool subtraction `high_water_mark - discovered.len()` on its own panics as soon as
+    the pool is above the mark (a single SharePeers answer may carry more addresses than were asked
+    for, and several peers are asked in the same round); `needs_more_peers` is exactly the guard that
+    turns that state into "no request" -/
+theorem discovery_subtraction_needs_guard (s : St) (p : Nat) (st : Peer) (h : s.hwm < s.discovered.length) :
+    usub s.hwm s.discovered.length = none ∧ discoveryHk s p st = some [] := by
+  constructor
+  · unfold usub; rw [if_neg (by omega)]
+  · unfold discoveryHk; rw [if_neg (by omega)]
+
+/-- such a state is reachable from peer input alone (mark lowered to 2 to keep the term small): one
+    handshaked peer answers a request with three addresses; the next housekeeping pass still runs -/
+example : ((run { St.init cfg1 with hwm := 2 } [.includePeer 0, .housekeeping [0] [], .connected 0,
+      .sent 0 (.hs (.propose [])), .recv 0 [.hs (.accept 13 1)], .sent 0 (.ps (.shareRequest 2)),
+      .recv 0 [.ps (.sharePeers [7, 8, 9])], .housekeeping [0] []]).map
+        (fun s => (decide (s.hwm < s.discovered.length), s.out))) = some (true, [.send 0 (.ka (.keepAlive 65535))]) := by
+  decide
+
 /-- one inventory entry together with the proved statement that makes it safe in the model -/
 structure Discharge where
   file : String
